@@ -65,6 +65,8 @@ type Machine struct {
 	par       *parState
 	poolFree  map[*Value][]Value
 	dumpCache map[any]Value
+	onces     map[*Value]bool
+	syncMaps  map[*Value]*Map
 
 	// per-worker statistics
 	forks      int
@@ -85,6 +87,7 @@ func (m *Machine) resetPath(prefix []int) {
 	m.par = nil
 	m.poolFree = map[*Value][]Value{}
 	m.dumpCache = nil
+	m.onces, m.syncMaps = nil, nil
 	m.globals = map[*ssa.Global]*Value{}
 	if m.ex.initState != nil {
 		// a private copy of the state the repository's package initialisers left behind
